@@ -478,14 +478,37 @@ def parse_replay(out):
     return r
 
 
-def replay_random(cdir, harness, seed, count, timeout=300):
+def complete_witness(cdir, harness, wit, label, count=3000, timeout=300):
+    """CBMC's trace sometimes omits an input (sliced away in the printed trace although it matters).  The
+    partial witness is pinned, the missing inputs are drawn at random natively, and the first run that fails
+    the SAME obligation on the real code is returned as the completed witness (None if there is none)."""
+    wf = os.path.join(cdir, 'pin-%d-%s.txt' % (os.getpid(), harness))
+    with open(wf, 'w') as f:
+        for k, v in sorted(wit.items()):
+            if k != 'bg':
+                f.write('%s=%d\n' % (k, v))
+    try:
+        r = replay_random(cdir, harness, 7, count, timeout, pin=wf)
+    finally:
+        try:
+            os.remove(wf)
+        except OSError:
+            pass
+    for blk in re.split(r'^CASE \d+$', r.get('out', ''), flags=re.M)[1:]:
+        fails = re.findall(r'^FAIL (.+)$', blk, flags=re.M)
+        if label in fails or (label.endswith(']') and re.search(r'^PANIC', blk, flags=re.M)):
+            return {k: int(v) for k, v in re.findall(r'^WIT (\w+)=(-?\d+)$', blk, flags=re.M)}
+    return None
+
+
+def replay_random(cdir, harness, seed, count, timeout=300, pin=None):
     cmd0 = _replay_cmd(cdir, harness, 'dev')
     try:
-        p = subprocess.run(cmd0 + ['random', harness, str(seed), str(count)], stdout=subprocess.PIPE,
+        p = subprocess.run(cmd0 + ['random', harness, str(seed), str(count)] + ([pin] if pin else []), stdout=subprocess.PIPE,
                            stderr=subprocess.STDOUT, text=True, timeout=timeout, env=ENV)
     except subprocess.TimeoutExpired:
         return {'ran': 0, 'skipped': 0, 'bad': 0, 'out': 'timeout'}
     m = re.search(r'RANDOM ran=(\d+) skipped=(\d+) bad=(\d+)', p.stdout)
     if not m:
         return {'ran': 0, 'skipped': 0, 'bad': 0, 'out': p.stdout[-2000:]}
-    return {'ran': int(m.group(1)), 'skipped': int(m.group(2)), 'bad': int(m.group(3)), 'out': p.stdout[-3000:]}
+    return {'ran': int(m.group(1)), 'skipped': int(m.group(2)), 'bad': int(m.group(3)), 'out': p.stdout[-20000:] if pin else p.stdout[-3000:]}
